@@ -89,7 +89,18 @@ def r1(ctx):
         elif b_len and a_p:
             rel1 = (cmp, FLIP[cmp.op])
     if rel1 is None:
-        ctx.missing(rule, 'comparison fi.len vs prefix_len in the prefix stage', pc.where())
+        others = []
+        for cmp in comparisons(pc):
+            sa, sb = backslice(pc, [cmp.a]), backslice(pc, [cmp.b])
+            if 'len' in sa.field_names() or 'len' in sb.field_names():
+                oth = sb if 'len' in sa.field_names() else sa
+                others.append((cmp, oth.describe(pc)))
+        if others:
+            ctx.violation(rule, pc.path + '|prefix-threshold', pc.where(others[0][0].line),
+                          'the prefix stage decides "this file is hashed completely" by comparing its length with {%s}, not with the prefix length that group_files also hands to the '
+                          'contents stage as its lower bound: files between the two thresholds are hashed completely by neither stage' % others[0][1])
+        else:
+            ctx.missing(rule, 'comparison fi.len vs prefix_len in the prefix stage', pc.where())
         return
     cmp, op1 = rel1
     br = branch_of(pc, cmp)
